@@ -332,7 +332,13 @@ func watchdog(d time.Duration, what string) (stop func()) {
 func caseWatchdog(prop, kind string, c interface{}) (stop func()) {
 	d := 4 * hangLimit()
 	if prop == "C20" {
-		d = 20 * time.Minute // dozens of goroutines under the race detector on a loaded machine
+		// dozens of goroutines under the race detector on a loaded machine: a case normally takes about a second;
+		// the limit stays well inside the budget of the whole run, so that a call that never returns is a verdict
+		// (watchdog, replay) and not a wall-clock time-out of the run
+		d = 4 * time.Minute
+		if thorough() {
+			d = 10 * time.Minute
+		}
 	}
 	tm := time.AfterFunc(d, func() {
 		crumb(prop, kind, c)
